@@ -39,12 +39,10 @@ def fn_table(unit_text):
         m = FN_RE.match(line)
         if m and (line.startswith("    ") or not line.startswith(" ")):
             indent = len(line) - len(line.lstrip())
-            if indent == 0 and not owner:
+            if indent <= 5 and not owner:
                 cur = m.group(2)
             elif indent <= 5 and owner:
                 cur = owner + "::" + m.group(2)
-            elif indent == 0:
-                cur = m.group(2)
         table.append(cur)
     return table
 
